@@ -16,7 +16,7 @@ TRIGGERS = {
     "rule_matrix_vector_prod__vector_repeater_column_major__V2": "vector<double> r = prod(trans(repeat(v,2)),w);",
     "rule_matrix_matrix_prod__matrix_scalar_multiply__M2": "matrix<double> r = prod(2.0*A,B);",
     "rule_matrix_matrix_prod__M1__matrix_scalar_multiply": "matrix<double> r = prod(A,2.0*B);",
-    "rule_matrix_matrix_prod__matrix_scalar_multiply__matrix_scalar_multiply": "matrix<double> r = prod(2.0*A,2.0*B);",
+    "rule_matrix_matrix_prod__mscal__mscal": "matrix<double> r = prod(2.0*A,2.0*B);",
 }
 CONTROLS = {
     "control_range_of_scaled_vector": "vector<double> r = subrange(2.0*v,0,1);",
